@@ -631,8 +631,8 @@ class Function(ValueNode):
 
         self.func = func
         parameters = parameters or []
-        self.parameters = parameters
         self.set_children(parameters)
+        self.parameters = self.get_children()  # literal values have been wrapped in Parameter nodes
 
         self._par_cache = []
 
